@@ -251,7 +251,8 @@ impl Model {
     pub fn table_2d(&mut self, matrix: &[Vec<VarId>], tuples: Vec<Vec<Val>>) -> Vec<PropId> {
         let mut prop_ids = Vec::with_capacity(matrix.len());
         for row in matrix {
-            let prop_id = self.props.table_constraint(row.to_vec(), tuples.clone());
+            // Through Model::table, so that a tuple of the wrong arity is reported like there
+            let prop_id = self.table(row, tuples.clone());
             prop_ids.push(prop_id);
         }
         prop_ids
